@@ -22,7 +22,8 @@ import (
 func TestMain(m *testing.M) { ev.Main(m, "C19") }
 
 // Op is one step. Op ∈ ins (write/replace), rm (remove), app (upsert-append, subscriptions
-// only), rt (dump → Load into a fresh store, continue on the loaded one).
+// only), rt (dump → Load into a fresh store, continue on the loaded one),
+// snap (dump, keep the bytes), back (Load the kept bytes into the store as it is now).
 type Op struct {
 	Op  string `json:"op"`
 	Key string `json:"key,omitempty"`
@@ -47,6 +48,8 @@ type store interface {
 	count() (int, bool)
 	iter() []string
 	roundTrip() (store, error)
+	dump() ([]byte, error)
+	load([]byte) error // into this very store object, whatever it holds
 }
 
 // key hands the key to the store in a scratch buffer that is overwritten right after the
@@ -86,6 +89,11 @@ func (t topicsStore) roundTrip() (store, error) {
 	}
 	return topicsStore{n}, nil
 }
+
+func (t topicsStore) dump() ([]byte, error) { return t.s.Dump() }
+func (t topicsStore) load(b []byte) error   { return t.s.Load(b) }
+func (t subsStore) dump() ([]byte, error)   { return t.s.Dump() }
+func (t subsStore) load(b []byte) error     { return t.s.Load(b) }
 
 type subsStore struct{ s subscriptions.Tree }
 
@@ -152,6 +160,10 @@ func run(c Case) (msg string, nontrivial bool) {
 	s := newStore(c.Store)
 	model := map[string]string{}
 	afterRT := false
+	// snap / back: a dump taken earlier and loaded later into the store as it is by then
+	// (restoring a saved image): the store answers as it did when the dump was taken
+	var snapBytes []byte
+	var snapModel map[string]string
 	for i, op := range c.Ops {
 		switch op.Op {
 		case "ins", "rm", "app":
@@ -191,6 +203,34 @@ func run(c Case) (msg string, nontrivial bool) {
 				return fmt.Sprintf("step %d: dump/load failed: %v", i, err), nontrivial
 			}
 			s = n
+			afterRT = true
+		case "snap":
+			b, err := s.dump()
+			if err != nil {
+				if strings.Contains(err.Error(), "invalid UTF-8") && !allUTF8(c.Keys) {
+					continue
+				}
+				return fmt.Sprintf("step %d: dump failed: %v", i, err), nontrivial
+			}
+			snapBytes = append([]byte{}, b...)
+			snapModel = map[string]string{}
+			for k, v := range model {
+				snapModel[k] = v
+			}
+		case "back":
+			if snapModel == nil {
+				continue
+			}
+			if err := s.load(append([]byte{}, snapBytes...)); err != nil {
+				return fmt.Sprintf("step %d: loading the earlier dump failed: %v", i, err), nontrivial
+			}
+			if len(model) > 0 || len(snapModel) > 0 {
+				nontrivial = true
+			}
+			model = map[string]string{}
+			for k, v := range snapModel {
+				model[k] = v
+			}
 			afterRT = true
 		default:
 			return "bad op " + op.Op, false
@@ -252,6 +292,10 @@ func check(t ev.TB, c Case) {
 			labels = append(labels, "has-roundtrip")
 			break
 		}
+		if op.Op == "back" {
+			labels = append(labels, "has-restore")
+			break
+		}
 	}
 	ev.Case(nt, c, labels...)
 	if msg != "" {
@@ -273,7 +317,7 @@ func alphabet(kind string) []Op {
 			out = append(out, Op{"app", k, "+" + k})
 		}
 	}
-	return append(out, Op{Op: "rt"})
+	return append(out, Op{Op: "rt"}, Op{Op: "snap"}, Op{Op: "back"})
 }
 
 // TestEnum: every sequence of up to L steps over the five keys of the property's
@@ -392,7 +436,7 @@ func genCase(t *rapid.T) Case {
 		case x < 8:
 			ops = append(ops, Op{"rm", k, ""})
 		case x < 10:
-			ops = append(ops, Op{Op: "rt"})
+			ops = append(ops, Op{Op: rapid.SampledFrom([]string{"rt", "rt", "snap", "back", "back"}).Draw(t, "image")})
 		default:
 			ops = append(ops, Op{"app", k, fmt.Sprintf("+%d", rapid.IntRange(1, 3).Draw(t, "val"))})
 		}
